@@ -17,6 +17,8 @@ import Model.LineSpec
 import Proofs.CastTyped
 import Proofs.Base64
 import Proofs.TimeShape
+import Proofs.LineLevel
+import Proofs.RoundTrip
 
 namespace Jl.C04
 open Jl Jl.Value Cast CastTyped
@@ -116,5 +118,53 @@ theorem datetime_column_class (ext : Ext) (raw : Dyn) (typ : Ty) (e : Dyn)
     the type / text shape whose JSON encoding is the class). -/
 example : exportVal ⟨genTables, Ext.empty⟩ (.cell (.time ⟨0, 0, 0⟩) .date .time) =
     .ok (.str [0x31,0x39,0x37,0x30,0x2D,0x30,0x31,0x2D,0x30,0x31]) := TimeShape.date_column_epoch
+
+/-- Member names of a tree the reader delivered are fixed by the escaper. -/
+private theorem keys_fixed_of_reader : ∀ (t : JVMembers), RoundTrip.ReaderStrings t →
+    ∀ k ∈ t.toList.map Prod.fst, JsonQuote.sanitize k = k
+  | .nil, _, k, hk => by simp [JVMembers.toList] at hk
+  | .cons k0 v ms, h, k, hk => by
+    simp only [RoundTrip.ReaderStrings, RoundTrip.AllM] at h
+    simp only [JVMembers.toList, List.map_cons, List.mem_cons] at hk
+    rcases hk with rfl | hk
+    · exact h.1
+    · exact keys_fixed_of_reader ms h.2.2 k hk
+
+/-! ### On the emitted bytes (`Proofs/LineLevel`) -/
+
+open Jl.JsonQuote (sanitize) in
+open Jl.Template in
+/-- C04 for one exported cell, every format at once, in the words of the oracle: the JSON value
+    the reader delivers for the member is in the lexical class of the column's format
+    (`LineSpec.inClass`), for every raw value, raw type and standard-library parameter — for a
+    date-time column provided zone offsets and the offset of a raw `time.Time` stay below 100 h. -/
+theorem member_in_class (ext : Ext) (raw : Dyn) (f : Format) (typ : Ty) (e : Dyn)
+    (he : exportVal ⟨genTables, ext⟩ (.cell raw f typ) = .ok e)
+    (hdt : f = .datetime → TimeShape.ZoneOK ext ∧ TimeShape.TimeSrcOK raw) :
+    LineSpec.inClass f (JsonPrint.treeVal ⟨genTables, ext⟩ (.cell raw f typ)) = true :=
+  LineLevel.member_in_class ext raw f typ e he hdt
+
+open Jl.JsonQuote (sanitize) in
+open Jl.Template in
+/-- C04 on the BYTES of an emitted line, in the words of the oracle the correspondence check
+    applies to the implementation's output: for every input text accepted by `jlLine` over the
+    regenerated cast tables, templates declaring the same distinct well-formed-UTF-8 names (as
+    every `jl` definition does), the line is an object text and a newline and
+    `LineSpec.classViolation` finds nothing in the object a JSON reader delivers for it.
+    `hdt` (zone offsets below 100 h, prototype cells holding no wilder `time.Time`) is asked only
+    when the output template has a date-time column; `LineLevel.Zone.zone_bound_needed` and
+    `LineLevel.Clash.separation_needed` show that neither it nor the UTF-8 condition can go. -/
+theorem emitted_bytes_in_class (ext : Ext) (ti to : Tmpl) (line b : Bytes) (fuel : Nat)
+    (h : jlLine ⟨genTables, ext⟩ ti to line = .ok (b, none)) (hx : JsonPrint.FloatTextOK ext)
+    (hto : (OMap.keys to).Nodup) (hperm : (OMap.keys ti).Perm (OMap.keys to))
+    (hutf : ∀ k ∈ OMap.keys to, sanitize k = k)
+    (hdt : (∃ kv ∈ to, Cells.format kv.2 = .datetime) → LineLevel.DateTimeSide ext ti to) :
+    ∃ body t, b = body ++ [0x0A] ∧ Json.unmarshal body = (t, true) ∧
+      LineSpec.classViolation fuel (LineLevel.leafCols to) t = none := by
+  refine LineLevel.emitted_line_classes_same_names ext ti to line b fuel h hx hto hperm hutf ?_ hdt
+  intro k hk
+  have hrs := RoundTrip.reader_strings (line := line) (t := (Json.unmarshal line).1)
+    (b := (Json.unmarshal line).2) rfl
+  exact keys_fixed_of_reader _ hrs k hk
 
 end Jl.C04
